@@ -12,6 +12,7 @@ exact interval. Alignment and row pitch do not exist in the model (an image is i
 Only property theorems and non-vacuity examples live here; lemmas are in `Proofs/Mip*.lean`.
 -/
 import DdsModel.Proofs.MipChain
+import DdsModel.Proofs.TrapMipGen
 import DdsModel.Theorems.C02
 namespace Dds.C16
 open Dds Dds.Mip
@@ -274,5 +275,133 @@ example :
     (runPlan (resizeImg boxK .box .u8 true)
       ⟨2, 2, [[100, 100, 100, 7], [0, 0, 0, 0], [9, 9, 9, 200], [255, 255, 255, 0]]⟩ [((1, 1), 0)] []).map
       (·.planes) = [[[100], [0], [9], [191]]] := by decide +kernel
+
+end Dds.C16
+
+/-! ## Section Q — the buffer and index arithmetic of the mipmap generator does not panic (`TrapMip.lean`)
+
+Trapping mirrors (`Option`, `none` = panic in the overflow-checking profile) of `MipmapCache` (src/encoder.rs) and of
+`get_aligned_slice`, `Aligner::align`, `AlignedView`, `AlignedBuffer`, `ResizeState`, `resize_into`, `resize_typed`
+(src/resize.rs).  The `resize` crate is an external call whose ASSUMED contract (read from resize-0.8.9/src/lib.rs,
+stated at the top of `TrapMip.lean`) is: `Resizer::new` fails iff a size is 0, `resize` fails iff the source has fewer
+than `w1·h1` pixels or the destination not exactly `w2·h2`; a call violating it makes the mirror return `none`
+(`expect`).  Assumed of the allocator: `Vec<u32>` storage is 4-aligned; an allocation failure aborts (outside the model).
+Bound: pixel buffers of at most `BMAX = 2^62 − 16` bytes (beyond it `Vec`'s amortised doubling can itself exceed
+`isize::MAX`; no 64-bit machine holds such an image). -/
+namespace Dds.C16
+open Dds Dds.Mip Dds.TrapMip Dds.TrapEnc
+
+/-- For every allocator returning 4-aligned storage, with or without the `rayon` feature:
+(1) `get_aligned_slice` returns, for ANY previous state of the buffer (any `len ≤ capacity`), a slice of exactly the
+    requested `w·h·bpp` bytes at a 4-aligned address, and leaves the buffer well-formed;
+(2) every SEQUENCE of generating calls through one `MipmapCache` (both buffers reused across calls) returns `some`:
+    no slice, index, `expect`, `debug_assert`, capacity or `resize`-crate precondition fails, the caches stay
+    well-formed, and the levels emitted by each call — sizes as the callback sees them and the image each is resized
+    from — are exactly `Mip.plan` (hence the sizes of `levels_and_sizes` / `Encoder.lean`);
+(3) an admissible call is: any view with C20's invariant and non-empty size (`w, h < 2^32`, ANY address — odd ones for
+    U16/F32 — and ANY pitch ≥ the row bytes), any of the 12 colours, any filter, both alpha settings, any non-empty
+    non-increasing list of non-empty sizes; in particular every mip chain `declared w0 h0 (l+1) (n+1)` started at ANY
+    level `l` with ANY number `n+1` of further levels (also beyond 1×1) of any `w0, h0`;
+(4) the 12 colour formats are `Color.OK`;
+(5) the straight-alpha `to_value`s never take the reciprocal of zero, for every accumulator value. -/
+theorem mip_cache_trapfree (al : Alloc) (ha : AlOK al) (rayon : Bool) :
+    (∀ (b : VecBuf) (w h : Nat) (c : Color), VecOK b → c.OK → w * h * c.bpp ≤ BMAX →
+      ∃ b', getAlignedSliceT al b w h c = some (b', ⟨b'.addr, w * h * c.bpp⟩) ∧ VecOK b' ∧ b'.addr % 4 = 0 ∧
+        w * h * c.bpp ≤ b'.len * 4) ∧
+    (∀ (calls : List Call) (k : Cache), CacheOK k → (∀ q ∈ calls, CallOK q) →
+      ∃ k' outs, generateSeqT al rayon k calls = some (k', outs) ∧ CacheOK k' ∧
+        calls.map (fun q => plan q.f (q.v.w, q.v.h) q.sizes) = outs.map some) ∧
+    (∀ (w0 h0 l n addr : Nat) (v : View) (c : Color) (f : Filter) (sa : Bool), VOK v c → c.OK →
+      v.w = mipSize w0 l → v.h = mipSize h0 l → v.w * v.h * c.bpp ≤ BMAX →
+      CallOK ⟨addr, v, c, declared w0 h0 (l + 1) (n + 1), f, sa⟩) ∧
+    (∀ c ∈ Color.all, c.OK) ∧
+    (∀ (p : Prec) (accC accA : Rat), saColourT p accC accA = some (saColour p accC accA)) := by
+  refine ⟨?_, fun calls k hk h => generateSeqT_ok ha rayon calls k hk h, ?_, ?_, saColourT_eq⟩
+  rotate_left 2
+  · intro c hc
+    unfold Color.all at hc
+    simp only [List.mem_cons, List.mem_nil_iff, or_false] at hc
+    rcases hc with h | h | h | h | h | h | h | h | h | h | h | h <;> subst h <;> simp [Color.OK]
+  · intro b w h c hb hc hs
+    obtain ⟨b', e1, e2, e3, _⟩ := getAlignedSliceT_ok ha hb hc hs
+    exact ⟨b', e1, e2, e2.addr, e3⟩
+  · intro w0 h0 l n addr v c f sa hv hc hw hh hb
+    refine ⟨hv, hc, ?_, ?_, hb, ?_, ?_, declared_pos _ _ _ _⟩
+    · show 1 ≤ v.w; rw [hw]; exact mipSize_pos _ _
+    · show 1 ≤ v.h; rw [hh]; exact mipSize_pos _ _
+    · show declared _ _ _ _ ≠ []
+      unfold declared; rw [List.range'_succ]; simp
+    · show Decr (v.w, v.h) _
+      rw [hw, hh]; exact declared_decr _ _ _ _
+
+/-- The bytes handed to the resizer do not depend on alignment or row pitch (the discrete half of C16's last
+sentence): two views of the same size and colour whose rows hold the same bytes — at different addresses, with
+different pitches, copied or not, into aligner buffers with different previous contents — give the same `w·h·bpp`
+bytes, namely the rows back to back. -/
+theorem aligned_view_independent (mem1 mem2 old1 old2 : Nat → Nat) (a1 a2 : Nat) {v1 v2 : View} {c : Color}
+    (h1 : VOK v1 c) (h2 : VOK v2 c) (hw : v1.w = v2.w) (hh : v1.h = v2.h) (pw : 1 ≤ v1.w) (ph : 1 ≤ v1.h)
+    (same : ∀ y, y < v1.h → ∀ j, j < v1.w * c.bpp → mem1 (a1 + y * v1.pitch + j) = mem2 (a2 + y * v2.pitch + j)) :
+    ∀ i, i < v1.w * v1.h * c.bpp →
+      alignBytes mem1 old1 a1 v1 c i = alignBytes mem2 old2 a2 v2 c i ∧
+      alignBytes mem1 old1 a1 v1 c i = mem1 (a1 + (i / (v1.w * c.bpp)) * v1.pitch + i % (v1.w * c.bpp)) := by
+  intro i hi
+  have e1 := alignBytes_spec mem1 old1 a1 h1 pw ph i hi
+  have e2 := alignBytes_spec mem2 old2 a2 h2 (by omega) (by omega) i (by rw [← hw, ← hh]; exact hi)
+  refine ⟨?_, e1⟩
+  rw [e1, e2, ← hw]
+  have hb : 1 ≤ c.bpp := by have := h1.inv.bpp_pos; rw [h1.bpp] at this; exact this
+  have hpos : 0 < v1.w * c.bpp := Nat.mul_pos pw hb
+  apply same
+  · apply Nat.div_lt_of_lt_mul
+    rw [Nat.mul_comm v1.w v1.h, Nat.mul_assoc, Nat.mul_comm] at hi
+    exact hi
+  · exact Nat.mod_lt _ hpos
+
+/-! non-vacuity, and `none` where it should be -/
+
+/-- an allocator for the examples -/
+def exAl : Alloc := fun _ n => 64 * (n + 1)
+/-- 4×4 RGBA-U16 at the ODD address 1001 with pitch 35 (> 32 row bytes): len = 35·3 + 32 -/
+def exView : View := ⟨0, 137, 4, 4, 8, 35⟩
+def exCol : Color := ⟨.rgba, 2⟩
+
+-- the hypotheses are satisfiable and the mirror runs: a strided view at an odd address, then the same pixels
+-- contiguous at an odd address, through ONE cache; Triangle on 4x4 uses previous-two, Box previous
+example : AlOK exAl ∧ CacheOK Cache.new ∧
+    generateSeqT exAl true Cache.new
+      [⟨1001, exView, exCol, [(2, 2), (1, 1), (1, 1)], .triangle, true⟩,
+       ⟨2001, ⟨0, 128, 4, 4, 8, 32⟩, exCol, [(2, 2), (1, 1)], .box, false⟩] =
+    some (⟨⟨2112, 32, 32⟩, VecBuf.empty⟩,
+      [[((2, 2), 0), ((1, 1), 0), ((1, 1), 1)], [((2, 2), 0), ((1, 1), 1)]]) := by
+  refine ⟨fun _ n => by show 64 * (n + 1) % 4 = 0; omega, CacheOK.new, by decide +kernel⟩
+-- without rayon the sequential path reuses `ResizeState::dest_buffer`
+example : (generateT exAl false Cache.new ⟨1001, exView, exCol, [(2, 2), (1, 1)], .nearest, true⟩).map (·.2) =
+    some [((2, 2), 0), ((1, 1), 0)] := by decide +kernel
+-- the mirrors are not constantly `some`: a source slice one byte short, a destination of the wrong size, a zero
+-- size, an unaligned source all violate the crate's / zerocopy's preconditions
+example : resizeTypedT ⟨1000, 127⟩ ⟨64, 32⟩ 4 4 2 2 4 2 = none ∧ resizeTypedT ⟨1000, 120⟩ ⟨64, 32⟩ 4 4 2 2 4 2 = none ∧
+    resizeTypedT ⟨1000, 128⟩ ⟨64, 40⟩ 4 4 2 2 4 2 = none ∧ resizeTypedT ⟨1000, 128⟩ ⟨64, 0⟩ 4 4 0 2 4 2 = none ∧
+    resizeTypedT ⟨1001, 128⟩ ⟨64, 32⟩ 4 4 2 2 4 2 = none ∧ resizeTypedT ⟨1000, 128⟩ ⟨64, 32⟩ 4 4 2 2 4 2 = some () := by
+  decide +kernel
+-- `generate_from_previous` with no sizes panics at `sizes[0]` (reached only by seed C11b, see `Theorems/C15.lean`)
+example : genFromPreviousT exAl Cache.new 1000 ⟨0, 4, 1, 1, 4, 4⟩ ⟨.rgba, 1⟩ [] true = none := by decide +kernel
+-- seed C16a (`split_at(2)` up front, no `len == 1` return): `none` for a single level — 2×2, 2×1, 1×2 sources —
+-- where the code as it is returns the one level; identical for two or more levels
+example : genFromPreviousTwoSplitT exAl Cache.new 1000 ⟨0, 16, 2, 2, 4, 8⟩ ⟨.rgba, 1⟩ [(1, 1)] true = none ∧
+    (genFromPreviousTwoT exAl Cache.new 1000 ⟨0, 16, 2, 2, 4, 8⟩ ⟨.rgba, 1⟩ [(1, 1)] true).map (·.2) =
+      some [((1, 1), 0)] ∧
+    genFromPreviousTwoSplitT exAl Cache.new 1000 exView exCol [(2, 2), (1, 1), (1, 1)] true =
+      genFromPreviousTwoT exAl Cache.new 1000 exView exCol [(2, 2), (1, 1), (1, 1)] true := by decide +kernel
+-- seed C16d (`buffer.capacity() < buffer_len`): a buffer that has grown once (len 48, capacity 96 — the README's
+-- 192-byte / 256-byte sequence) is a well-formed state on which the seeded function slices past the end, while
+-- the code as it is resizes; clause (1) of `mip_cache_trapfree` is false for the seeded function
+example : VecOK ⟨64, 48, 96⟩ ∧ getAlignedSliceCapT exAl ⟨64, 48, 96⟩ 8 8 ⟨.rgba, 1⟩ = none ∧
+    getAlignedSliceT exAl ⟨64, 48, 96⟩ 8 8 ⟨.rgba, 1⟩ = some (⟨64, 64, 96⟩, ⟨64, 256⟩) := by
+  refine ⟨⟨by decide, by decide, by decide⟩, by decide +kernel, by decide +kernel⟩
+-- seed C16f's integer `/ a` for a fully transparent block is `recipT 0`; the code's guards never reach it
+example : recipT 0 = none ∧ saColourT .u8 0 0 = some 0 ∧ saColourT .u16 0 0 = some 0 ∧ saColourT .f32 0 0 = some 0 := by
+  decide +kernel
+-- the alignment copy: row 1, byte 2 of a strided view lands at index 1·bpr + 2
+example : alignBytes (fun a => a) (fun _ => 7) 1001 exView exCol 34 = 1001 + 35 + 2 := by decide +kernel
 
 end Dds.C16
